@@ -16,7 +16,7 @@ from props import C07_lib as L
 
 THEOREMS = ["C07_initial", "C07_invariant", "C07_last_update_step", "C07_last_update_tracks", "C07_ghost_is_a_ghost",
             "C07_expire", "C07_expiry_boundary", "C07_expire_history", "C07_restart_reset_query", "C07_stop", "C07_others",
-            "C07_failed_sync_keeps_timestamp", "C07_interrupted_reload_example", "C07_purge_translated", "C07_fsm_step_translated", "C07_stop_translated"]
+            "C07_failed_sync_keeps_timestamp", "C07_interrupted_reload_example", "C07_purge_translated", "C07_fsm_step_translated", "C07_stop_translated", "C07_run_translated"]
 
 HOWS = ["err", "close", "timeout", "intr", "mal:len_small", "mal:len_big", "mal:len_type", "mal:type", "mal:version", "mal:flags",
         "mal:plen", "unexpected", "stop"]
